@@ -643,4 +643,87 @@ theorem wait_subset (nc0 : NC) (vP vG : List Entry)
       rw [hsz]
       simp [flagE, newStatus, slotOf, hsome]
 
+/-! ### a refused wait in the repaired variant (clearOnRefusal) -/
+
+def clearE (e : Entry) : Entry := { e with c := { e.c with toFree := false, status := none } }
+
+theorem clearMarks_canon : ∀ (o : Nat) (m : List Entry), clearMarks (canonLeads o m) = canonLeads o (m.map clearE) := by
+  intro o m
+  induction m generalizing o with
+  | nil => rfl
+  | cons e es ih =>
+    simp only [canonLeads, clearMarks, List.map_cons] at ih ⊢
+    rw [ih]; rfl
+
+theorem clearE_applyMark (mk : Int → Option (Option Nat)) (e : Entry) : clearE (applyMark mk e) = clearE e := by
+  unfold applyMark; cases mk e.c.id <;> rfl
+
+/-- with the repair of F19, a refused wait leaves both queues in canonical form for the same pending
+    requests (flags clear, status pointers reset) -/
+theorem wait_refused_fixed (nc0 : NC) (vP vG : List Entry)
+    (hP : Rep nc0.put vP) (hG : Rep nc0.get vG)
+    (hcP : Clean vP) (hcG : Clean vG) (hdP : Distinct vP) (hdG : Distinct vG)
+    (num : Int) (ids : List Int) (st : Option (List Int)) (V : Variant) (hV : V.clearOnRefusal = true)
+    (hsub : SubsetPath nc0 num ids st V) (herr : (wait nc0 num ids st V).err ≠ NC_NOERR) :
+    Rep (wait nc0 num ids st V).nc.put (vP.map clearE) ∧ Rep (wait nc0 num ids st V).nc.get (vG.map clearE) ∧
+    (wait nc0 num ids st V).nc.put.maxId = nc0.put.maxId ∧ (wait nc0 num ids st V).nc.get.maxId = nc0.get.maxId ∧
+    (wait nc0 num ids st V).nc.numrecs = nc0.numrecs := by
+  obtain ⟨hs0, hs1, hs2, hs3⟩ := hsub
+  have hbase : MI nc0 vP vG st.isSome [] { nc := nc0, ids := ids, st := st } := by
+    refine ⟨fun _ => none, fun _ => none, ?_, ?_, rfl, ?_, ?_, ?_, ?_, rfl, ?_, ?_, ?_⟩
+    · rw [applyMark_none, ← hP.lead]
+    · rw [applyMark_none, ← hG.lead]
+    · rw [applyMark_none, flagged_clean vP hcP]; rfl
+    · rw [applyMark_none, flagged_clean vP hcP]; rfl
+    · rw [applyMark_none, flagged_clean vG hcG]; rfl
+    · rw [applyMark_none, flagged_clean vG hcG]; rfl
+    · intro id s h; simp at h
+    · intro id s h; simp at h
+    · intro _ i rid h; simp at h
+  have hmi := markLoop_MI nc0 vP vG st.isSome hcP hdP hcG hdG ids 0 [] _ hbase
+  have hext : extract nc0 num ids st V =
+      (let e := markLoop 0 ids { nc := nc0, ids := ids, st := st }
+       if e.err ≠ NC_NOERR then
+         (if V.clearOnRefusal then
+            { e with nc := { e.nc with put := { e.nc.put with lead := clearMarks e.nc.put.lead },
+                                       get := { e.nc.get with lead := clearMarks e.nc.get.lead } } }
+          else e)
+       else
+         let c := copyLoop e.nc ids
+         { e with ids := c.1, putList := c.2.1, getList := c.2.2,
+                  nc := { e.nc with put := e.nc.put.compact e.numW, get := e.nc.get.compact e.numR } }) := by
+    unfold extract
+    simp only [hs0, hs1, hs2, hs3, if_false]
+  generalize hE : markLoop 0 ids { nc := nc0, ids := ids, st := st } = e at hmi hext
+  have he : e.err ≠ NC_NOERR := by
+    intro h0
+    apply herr
+    unfold wait; rw [hext]; simp [h0]
+  obtain ⟨mkP, mkG, hput, hget, hnr, _, _, _, _, _, _, _, _⟩ := hmi
+  have hw : (wait nc0 num ids st V).nc =
+      { e.nc with put := { e.nc.put with lead := clearMarks e.nc.put.lead },
+                  get := { e.nc.get with lead := clearMarks e.nc.get.lead } } := by
+    unfold wait; rw [hext]; simp [he, hV]
+  rw [hw]
+  simp only
+  have hmapP : (vP.map (applyMark mkP)).map clearE = vP.map clearE := by
+    rw [List.map_map]; apply List.map_congr_left; intro x _; exact clearE_applyMark mkP x
+  have hmapG : (vG.map (applyMark mkG)).map clearE = vG.map clearE := by
+    rw [List.map_map]; apply List.map_congr_left; intro x _; exact clearE_applyMark mkG x
+  have hsubsP : (vP.map clearE).map (fun e => e.subs) = vP.map (fun e => e.subs) := by
+    simp [List.map_map, Function.comp_def, clearE]
+  have hsubsG : (vG.map clearE).map (fun e => e.subs) = vG.map (fun e => e.subs) := by
+    simp [List.map_map, Function.comp_def, clearE]
+  refine ⟨⟨?_, ?_, ?_, ?_⟩, ⟨?_, ?_, ?_, ?_⟩, ?_, ?_, hnr⟩
+  · simp only; rw [hput]; simp only; rw [clearMarks_canon, hmapP]
+  · simp only; rw [hput]; simp only; rw [hP.nonlead]; exact (canonNL_congr _ _ hsubsP 0).symm
+  · simp only; rw [hput]; simp [hP.numLead]
+  · simp only; rw [hput]; simp only; rw [hP.numReqs]; exact (total_congr _ _ hsubsP).symm
+  · simp only; rw [hget]; simp only; rw [clearMarks_canon, hmapG]
+  · simp only; rw [hget]; simp only; rw [hG.nonlead]; exact (canonNL_congr _ _ hsubsG 0).symm
+  · simp only; rw [hget]; simp [hG.numLead]
+  · simp only; rw [hget]; simp only; rw [hG.numReqs]; exact (total_congr _ _ hsubsG).symm
+  · rw [hput]
+  · rw [hget]
+
 end PnVerif.ReqQueue
